@@ -3,6 +3,8 @@ use std::collections::HashMap;
 use std::io::{self, BufRead, IsTerminal, Write};
 
 use bytelines::ByteLines;
+use lazy_static::lazy_static;
+use regex::Regex;
 
 use crate::ansi;
 use crate::config::delta_unreachable;
@@ -209,7 +211,7 @@ impl<'a> StateMachine<'a> {
                 || self.handle_git_show_file_line()?
                 || self.handle_blame_line()?
                 || self.handle_grep_line()?
-                || self.should_skip_line()
+                || self.skip_file_metadata_line()?
                 || self.emit_line_unchanged()?;
 
             #[cfg(dandavison_delta_verif)]
@@ -311,6 +313,22 @@ impl<'a> StateMachine<'a> {
             && !self.config.color_only
     }
 
+    /// Skip the lines between the 'diff' line of a file section and its first hunk.
+    fn skip_file_metadata_line(&mut self) -> std::io::Result<bool> {
+        if !self.should_skip_line() {
+            return Ok(false);
+        }
+        if is_file_metadata_line(&self.line) {
+            return Ok(true);
+        }
+        // Not a line of the header: after a section without hunks (a pure rename, a mode change,
+        // a binary or an empty file) this is e.g. the 'hash subject' line of the next commit in
+        // `git log --oneline -p`. It is passed on, after the header that was waiting for the
+        // end of its section.
+        self.handle_pending_line_with_diff_name()?;
+        Ok(false)
+    }
+
     /// Emit unchanged any line that delta does not handle.
     pub fn emit_line_unchanged(&mut self) -> std::io::Result<bool> {
         self.painter.emit()?;
@@ -330,6 +348,43 @@ impl<'a> StateMachine<'a> {
         let style = self.config.get_style(&self.state);
         !(style.is_raw && style.decoration_style == DecorationStyle::NoDecoration)
     }
+}
+
+/// Is this one of the lines that may stand between the 'diff' line of a file section and its
+/// first hunk (the extended header lines of git, the data of a `git diff --binary` patch, the
+/// notes of diff -r)? Delta does not display them.
+fn is_file_metadata_line(line: &str) -> bool {
+    lazy_static! {
+        static ref FILE_METADATA_LINE_REGEX: Regex = Regex::new(
+            r"(?x)^(
+                index\ [0-9a-f,.]+
+              | (similarity|dissimilarity)\ index\ 
+              | (rename|copy)\ (from|to)\ 
+              | (old\ |new\ |deleted\ file\ |new\ file\ )?mode\ [0-7,.]+
+              | ---\ | \+\+\+\ 
+              | Binary\ files\ | Files\ | Only\ in\ 
+              | GIT\ binary\ patch$
+              | (literal|delta)\ [0-9]+$
+            )"
+        )
+        .unwrap();
+    }
+    line.trim().is_empty() || FILE_METADATA_LINE_REGEX.is_match(line) || is_binary_patch_data(line)
+}
+
+/// A data line of a `git diff --binary` patch: a letter that gives the number of bytes (A-Z: 1-26,
+/// a-z: 27-52) followed by their base85 encoding, five characters for every four bytes.
+fn is_binary_patch_data(line: &str) -> bool {
+    let bytes = line.as_bytes();
+    let n_bytes = match bytes.first() {
+        Some(c @ b'A'..=b'Z') => (c - b'A') as usize + 1,
+        Some(c @ b'a'..=b'z') => (c - b'a') as usize + 27,
+        _ => return false,
+    };
+    bytes.len() - 1 == (n_bytes + 3) / 4 * 5
+        && bytes[1..]
+            .iter()
+            .all(|c| c.is_ascii_alphanumeric() || b"!#$%&()*+-;<=>?@^_`{|}~".contains(c))
 }
 
 /// If output is going to a tty, emit hyperlinks if requested.
